@@ -8,7 +8,7 @@ package main
 //              | g:<dt_ns>                 collector run at now advanced by dt
 //           addr = 4-<8 hex> | 6-<32 hex>  (v4-mapped addresses are 6-00..00ffff<8 hex>)
 //           rate/burst/v4/v6 = 0 means omitted (defaults through NewClientLimiter -> setDefault)
-//           clock=virt: now = fixed base + offset, collector through the VerifGcAt hook
+//           clock=virt: now = fixed base + offset, collector through the VerifGcNow hook (= the real gcAt)
 //           clock=real: exactly one g op; the base is chosen so that this op happens "now" on the real
 //                       clock and the real gc() is called (arrival times keep clear of the 60 s threshold)
 //   result: dec=<0|1 per a-op> len=<entries at the end> near=<decisions within 1e-6 token of the threshold>
@@ -145,7 +145,7 @@ func c15History(cl *limiter.ClientLimiter, f map[string]string, ops []string) st
 				if realClock {
 					cl.VerifGc()
 				} else {
-					cl.VerifGcAt(now)
+					cl.VerifGcNow(now)
 				}
 			default:
 				return "HARNESS-ERROR bad op"
